@@ -536,4 +536,95 @@ example : servedB (run (initState .file .F 1) [.write 6 1, .commit 6, .apply 5, 
 theorem push_completed_next (s : PState) (h : s.role = .L) :
     (step s .pushDone).2.1 = .next (some (s.last + 1)) := by simp [step, h]
 
+/-! ## lagging peers at the replication-worker level: failed pushes do not strand the peer -/
+
+theorem pushBackoff_le_cap (base cap c : Nat) : pushBackoff base cap c ≤ cap := Nat.min_le_right _ _
+
+/-- the worker / backoff state in which the next heartbeat round (at least `cap` ms later) attempts a push -/
+structure WReady (s : WState) : Prop where
+  lagging : s.first > 1 ∧ s.next < s.first
+  has_snap : ∃ m, s.snap = some m
+  idle : s.inProgress = false
+  retry_soon : ∀ r, s.retryAt = some r → r ≤ s.now + s.cap
+
+/-- one round with a failing push keeps the peer servable -/
+theorem wStep_fail (s : WState) (dt : Nat) (h : WReady s) (hdt : s.cap ≤ dt) (hk : s.failsLeft > 0) :
+    (wStep s dt).2 = [.pushFailed] ∧ WReady (wStep s dt).1 ∧
+    (wStep s dt).1.failsLeft = s.failsLeft - 1 ∧ (wStep s dt).1.cap = s.cap ∧ (wStep s dt).1.last = s.last ∧
+    (wStep s dt).1.first = s.first := by
+  obtain ⟨hl, ⟨m, hm⟩, hi, hr⟩ := h
+  have hnb : inBackoff s.retryAt (s.now + dt) = false := by
+    unfold inBackoff
+    cases hra : s.retryAt with
+    | none => rfl
+    | some r => have := hr r hra; simp; omega
+  have hstep : wStep s dt = (({ s with now := s.now + dt, failsLeft := s.failsLeft - 1, inProgress := false, failCount := s.failCount + 1, retryAt := some (s.now + dt + pushBackoff s.base s.cap (s.failCount + 1)) } : WState), [WCall.pushFailed]) := by
+    unfold wStep
+    simp only [hl, and_self, if_true, hm, hnb, hi, hk, Bool.false_eq_true, if_false]
+  rw [hstep]
+  refine ⟨rfl, ⟨hl, ⟨m, hm⟩, rfl, ?_⟩, rfl, rfl, rfl, rfl⟩
+  intro r hr'
+  have : r = s.now + dt + pushBackoff s.base s.cap (s.failCount + 1) := by
+    have := hr'; simp only [Option.some.injEq] at this; exact this.symm
+  subst this
+  have := pushBackoff_le_cap s.base s.cap (s.failCount + 1)
+  show _ ≤ s.now + dt + s.cap
+  omega
+
+/-- one round with a succeeding push: the snapshot goes out and next_index restarts at last + 1 -/
+theorem wStep_ok (s : WState) (dt : Nat) (h : WReady s) (hdt : s.cap ≤ dt) (hk : s.failsLeft = 0) :
+    (wStep s dt).2 = [.pushOk] ∧ (wStep s dt).1.next = s.last + 1 ∧ (wStep s dt).1.inProgress = false ∧
+    (wStep s dt).1.last = s.last ∧ (wStep s dt).1.first = s.first := by
+  obtain ⟨hl, ⟨m, hm⟩, hi, hr⟩ := h
+  have hnb : inBackoff s.retryAt (s.now + dt) = false := by
+    unfold inBackoff
+    cases hra : s.retryAt with
+    | none => rfl
+    | some r => have := hr r hra; simp; omega
+  have hstep : wStep s dt = (({ s with now := s.now + dt, inProgress := false, failCount := 0, retryAt := none, next := s.last + 1 } : WState), [WCall.pushOk]) := by
+    unfold wStep
+    simp only [hl, and_self, if_true, hm, hnb, hi, hk, Bool.false_eq_true, if_false, Nat.lt_irrefl]
+  rw [hstep]
+  exact ⟨rfl, rfl, rfl, rfl, rfl⟩
+
+/-- a peer that is not below the boundary and whose worker is idle gets an AppendEntries -/
+theorem wStep_append (s : WState) (dt : Nat) (hnt : ¬ (s.first > 1 ∧ s.next < s.first))
+    (hi : s.inProgress = false) : (wStep s dt).2 = [.append (s.next - 1)] := by
+  unfold wStep
+  simp only [hnt, if_false, hi, Bool.false_eq_true]
+
+/-- **C33 at the worker level.** A peer below the purge boundary, a snapshot held, the transport failing the
+    next `k` pushes (any `k`): heartbeat rounds spaced at least one maximal backoff apart make exactly `k` failed
+    attempts, then the push succeeds, and the round after that hands the peer an AppendEntries at `last` — the peer
+    is never stranded by failed pushes. -/
+theorem worker_serves_lagging_peer (k : Nat) : ∀ (s : WState) (dts : List Nat), WReady s → s.failsLeft = k →
+    dts.length = k + 2 → (∀ d ∈ dts, s.cap ≤ d) → s.first ≤ s.last + 1 →
+    (wRun s dts).map (·.1) = List.replicate k [.pushFailed] ++ [[.pushOk], [.append s.last]] := by
+  induction k with
+  | zero =>
+    intro s dts h hk hlen hd hfl
+    match dts, hlen with
+    | [d1, d2], _ =>
+      obtain ⟨c1, n1, i1, l1, f1⟩ := wStep_ok s d1 h (hd d1 (by simp)) hk
+      simp only [wRun, List.map, List.replicate, List.nil_append]
+      rw [c1]
+      -- second round: append at last
+      have h2 : (wStep (wStep s d1).1 d2).2 = [.append s.last] := by
+        rw [wStep_append _ d2 (by rw [n1, f1]; omega) i1, n1]
+        simp
+      rw [h2]
+  | succ k ih =>
+    intro s dts h hk hlen hd hfl
+    match dts, hlen with
+    | d :: rest, hlen =>
+      obtain ⟨c1, r1, fl1, cap1, l1, f1⟩ := wStep_fail s d h (hd d (by simp)) (by omega)
+      simp only [wRun, List.map, List.replicate_succ, List.cons_append]
+      rw [c1]
+      have := ih (wStep s d).1 rest r1 (by rw [fl1, hk]; rfl) (by simpa using hlen)
+        (fun x hx => by rw [cap1]; exact hd x (List.mem_cons_of_mem _ hx)) (by rw [f1, l1]; exact hfl)
+      rw [this, l1]
+/-- non-vacuity: two failures, then served -/
+example : (wRun ⟨5, 8, some 4, 100, 400, 0, 2, 2, 0, none, false⟩ [400, 400, 400, 400]).map (·.1)
+    = [[.pushFailed], [.pushFailed], [.pushOk], [.append 8]] := by decide
+
 end DEngine.C33
